@@ -144,6 +144,7 @@ pub fn minimise_and_write(property: &str, seed: u64, cfg: &Cfg, steps: &[Step], 
         steps: min_steps,
         violation: f.clone(),
         minimised_from: steps.len(),
+        build: crate::this_build().to_string(),
     };
     let tag = f.sig.chars().filter(|c| c.is_ascii_alphanumeric() || *c == '-').take(40).collect::<String>();
     let path = vcommon::replay_path(property, seed, &tag);
